@@ -8,7 +8,7 @@ import core
 import gen
 
 PID = 'C12'
-MODULES = ['FFVerif.Proofs.C12', 'FFVerif.Proofs.C12Chain', 'FFVerif.Proofs.C20Align', 'FFVerif.Proofs.C12Basis', 'FFVerif.Proofs.VecGen', 'FFVerif.Proofs.C12Pipe', 'FFVerif.Proofs.C12Rows', 'FFVerif.Proofs.C12Hess']
+MODULES = ['FFVerif.Proofs.C12', 'FFVerif.Proofs.C12Chain', 'FFVerif.Proofs.C20Align', 'FFVerif.Proofs.C12Basis', 'FFVerif.Proofs.VecGen', 'FFVerif.Proofs.C12Pipe', 'FFVerif.Proofs.C12Rows', 'FFVerif.Proofs.C12Hess', 'FFVerif.Proofs.C12Scale']
 
 
 def fail(res, clause, case, out, sig=None):
